@@ -10,14 +10,18 @@ pub fn write_seeds(dir: &str) -> std::io::Result<usize> {
     std::fs::create_dir_all(format!("{dir}/fuzz_roundtrip"))?;
     let mut n = 0usize;
     let mut put = |target: &str, name: &str, bytes: &[u8]| -> std::io::Result<()> {
+        if bytes.len() > 16_000 {
+            return Ok(());
+        }
         std::fs::write(format!("{dir}/{target}/{name}"), bytes)?;
         n += 1;
         Ok(())
     };
     let datas: Vec<(&str, Data)> = vec![
         ("text", Data { segs: vec![Seg::Text { len: 3000, seed: 1 }] }),
-        ("mixed", Data { segs: vec![Seg::Mixed { len: 20_000, seed: 2 }, Seg::CopyBack { len: 400, dist: 9000 }] }),
-        ("rand", Data { segs: vec![Seg::Rand { len: 70_000, seed: 3 }, Seg::Text { len: 2000, seed: 4 }] }),
+        ("mixed", Data { segs: vec![Seg::Mixed { len: 5000, seed: 2 }, Seg::CopyBack { len: 400, dist: 3000 }] }),
+        ("rand", Data { segs: vec![Seg::Rand { len: 2500, seed: 3 }, Seg::Text { len: 1000, seed: 4 }] }),
+        
         ("code", Data { segs: vec![Seg::Opcode { len: 6000, arch: 0, seed: 5 }] }),
         ("empty", Data::default()),
     ];
@@ -48,11 +52,13 @@ pub fn write_seeds(dir: &str) -> std::io::Result<usize> {
                 ("plain", vec![]),
                 ("delta", vec![FilterSpec::Delta(4)]),
                 ("x86", vec![FilterSpec::Bcj(0, 0)]),
+                ("x86_start", vec![FilterSpec::Bcj(0, 8192)]),
+                ("ppc_start_delta", vec![FilterSpec::Bcj(1, 0x1000_0000), FilterSpec::Delta(2)]),
                 ("arm64_delta", vec![FilterSpec::Delta(1), FilterSpec::Bcj(6, 4096)]),
             ] {
                 let cfg = XzCfg { check: (dict_log % 4) as u8, block: if on == "b" { Some(4000) } else { None }, filters, opts: opts.clone() };
                 if let Ok(s) = encode_xz(&bytes, &cfg, &Plan::All) {
-                    let mut v = vec![3u8, 1, 0, 0, 0, 0];
+                    let mut v = vec![3u8, if dict_log == 16 { 1 } else { 3 }, 0, 0, 0, 0];
                     v.extend_from_slice(&s);
                     // two concatenated streams with padding
                     let mut v2 = v.clone();
@@ -89,13 +95,21 @@ pub fn write_seeds(dir: &str) -> std::io::Result<usize> {
         put("fuzz_decode", &format!("bcj2_{dn}"), &v)?;
         put("fuzz_roundtrip", &format!("rt_{dn}"), &bytes[..bytes.len().min(4000)])?;
     }
+    std::fs::write(
+        format!("{dir}/tokens.dict"),
+        concat!(
+            "\"\\xFD7zXZ\\x00\"\n\"YZ\"\n\"LZIP\\x01\"\n\"\\x21\\x01\"\n\"\\x03\\x01\"\n\"\\x04\\x04\"\n\"\\x04\\x00\"\n\"\\x05\\x04\"\n\"\\x06\\x04\"\n",
+            "\"\\x07\\x04\"\n\"\\x08\\x04\"\n\"\\x09\\x04\"\n\"\\x0A\\x04\"\n\"\\x0B\\x04\"\n\"\\x00\\x01\"\n\"\\x00\\x04\"\n\"\\xE0\"\n\"\\xC0\"\n\"\\xA0\"\n\"\\x80\"\n",
+            "\"\\x01\"\n\"\\x02\"\n\"\\xFF\\xFF\"\n\"\\x5D\\x00\\x00\\x01\\x00\"\n\"\\xFF\\xFF\\xFF\\xFF\\xFF\\xFF\\xFF\\xFF\"\n\"\\x00\\x00\\x00\\x00\"\n"
+        ),
+    )?;
     // real executables compressed by liblzma
     for f in std::fs::read_dir("/verif/corpus/exe")?.flatten() {
         let name = f.file_name().to_string_lossy().to_string();
         if name.ends_with(".xz") {
             let mut v = vec![3u8, 0, 0, 0, 0, 0];
             v.extend_from_slice(&std::fs::read(f.path())?);
-            if v.len() < 400_000 {
+            if v.len() < 16_000 {
                 put("fuzz_decode", &format!("exe_{name}"), &v)?;
             }
         }
